@@ -3,6 +3,7 @@ package main
 
 import (
 	"fmt"
+	"os"
 	"strconv"
 	"strings"
 	"time"
@@ -586,7 +587,70 @@ func check(run *enga.Run) *sim.Violation {
 	return nil
 }
 
+// longLife (thorough tier, non-race build, VERIF_C01_WRAP=<result file>; the variable name is
+// shared with C01): one list lives through 2^32+8 REAL push/pop pairs - past every 32-bit
+// boundary an implementation might keep its counters in - and is then driven against a slice
+// model.  About four minutes on one core.
+func longLife(path string) {
+	type result struct {
+		Pairs       uint64  `json:"pairs"`
+		AfterOps    int     `json:"ops_after_the_long_life"`
+		Failure     string  `json:"failure,omitempty"`
+		WallSeconds float64 `json:"wall_s"`
+	}
+	start := time.Now()
+	res := result{}
+	l := listz.NewSync[int]()
+	n := uint64(1)<<32 + 8
+	for i := uint64(0); i < n; i++ {
+		l.Push(int(i))
+		v, ok := l.Pop()
+		if !ok || v != int(i) {
+			res.Failure = fmt.Sprintf("Pop at pair %d returned (%d,%v)", i, v, ok)
+			break
+		}
+		if i&(1<<28-1) == 0 {
+			if L := l.Len(); L != 0 {
+				res.Failure = fmt.Sprintf("after %d pairs, nothing stored, nothing in flight: Len() = %d", i+1, L)
+				break
+			}
+		}
+	}
+	res.Pairs = n
+	var model []int
+	next := 1
+	for step := 0; step < 64 && res.Failure == ""; step++ {
+		for j := 0; j < step%5+1; j++ {
+			l.Push(next)
+			model = append(model, next)
+			next++
+			res.AfterOps++
+		}
+		if L := l.Len(); L != len(model) {
+			res.Failure = fmt.Sprintf("after the long life, step %d: Len() = %d, %d values stored", step, L, len(model))
+			break
+		}
+		for j := 0; j < step%4+1 && res.Failure == ""; j++ {
+			v, ok := l.Pop()
+			if ok != (len(model) > 0) || (ok && v != model[0]) {
+				res.Failure = fmt.Sprintf("after the long life, step %d: Pop = (%d,%v), model %v", step, v, ok, model)
+				break
+			}
+			if ok {
+				model = model[1:]
+			}
+			res.AfterOps++
+		}
+	}
+	res.WallSeconds = time.Since(start).Seconds()
+	sim.WriteJSON(path, res)
+}
+
 func main() {
+	if p := os.Getenv("VERIF_C01_WRAP"); p != "" {
+		longLife(p)
+		return
+	}
 	enga.Main(&enga.Spec{ID: "C11", Gen: gen, New: build, Check: check,
 		// Push waits for in-flight pushes and PopWait(<0) for a value; everything else must finish by itself
 		Bounded: func(op sim.Op) bool { return op.Op != "Push" && !(op.Op == "PopWait" && op.D < 0) }})
